@@ -35,6 +35,9 @@ type Prog struct {
 	globalInvs []*GlobalInv
 	prot      []int
 	effFree   map[*ssa.Function]bool
+	reachMemo map[*ssa.Function]int
+	reachLabels map[string]bool
+	byMethodName map[string][]*ssa.Function
 	protDone  bool
 	repoDir   string
 }
@@ -376,4 +379,147 @@ func sortedFuncKeys(m map[string]*ssa.Function) []string {
 	}
 	sort.Strings(ks)
 	return ks
+}
+
+// mayReachCounted: can a call (static callee fn, or the call c when dynamic /
+// interface) reach, through calls visible in the SSA of the repository, a
+// function that carries a ghost call counter?  Interface invocations are
+// resolved by method name over all repository methods; calls of unknown
+// function values and callbacks from dependencies are assumed not to reach one
+// (listed as an assumption).
+func (p *Prog) mayReachCounted(c *ssa.CallCommon, fn *ssa.Function, labels map[string]bool) bool {
+	if p.reachMemo == nil || !sameLabels(p.reachLabels, labels) {
+		p.reachLabels = labels
+		p.reachMemo = map[*ssa.Function]int{}
+		p.byMethodName = map[string][]*ssa.Function{}
+		for _, f := range p.allFuncs() {
+			if f.Signature.Recv() != nil {
+				p.byMethodName[f.Name()] = append(p.byMethodName[f.Name()], f)
+			}
+		}
+	}
+	counted := func(key string) bool {
+		for _, l := range p.countOf[key] {
+			if labels[l] {
+				return true
+			}
+		}
+		return false
+	}
+	var visit func(f *ssa.Function, depth int) bool
+	visit = func(f *ssa.Function, depth int) bool {
+		if f == nil {
+			return false
+		}
+		if f.Origin() != nil {
+			f = f.Origin()
+		}
+		if depth > 0 && counted(funcKey(f)) {
+			if os.Getenv("GOVC_DEBUG") == "reach" {
+				fmt.Fprintln(os.Stderr, "reach: counted", funcKey(f), "depth", depth)
+			}
+			return true
+		}
+		if !inRepo(f) || f.Blocks == nil {
+			return false
+		}
+		switch p.reachMemo[f] {
+		case 1:
+			return false // in progress or known false
+		case 2:
+			return true
+		}
+		p.reachMemo[f] = 1
+		res := false
+		check := func(cc *ssa.CallCommon) {
+			if res {
+				return
+			}
+			if cc.IsInvoke() {
+				if counted(ifaceMethodKey(cc)) {
+					if os.Getenv("GOVC_DEBUG") == "reach" {
+						fmt.Fprintln(os.Stderr, "reach: invoke", ifaceMethodKey(cc), "in", funcKey(f))
+					}
+					res = true
+					return
+				}
+				for _, m := range p.implementors(cc) {
+					if visit(m, depth+1) {
+						res = true
+						return
+					}
+				}
+				return
+			}
+			switch v := cc.Value.(type) {
+			case *ssa.Function:
+				if visit(v, depth+1) {
+					res = true
+				}
+			case *ssa.MakeClosure:
+				if visit(v.Fn.(*ssa.Function), depth+1) {
+					res = true
+				}
+			}
+		}
+		for _, b := range f.Blocks {
+			for _, in := range b.Instrs {
+				if ci, ok := in.(ssa.CallInstruction); ok {
+					check(ci.Common())
+				}
+			}
+		}
+		for _, a := range f.AnonFuncs {
+			if !res && visit(a, depth+1) {
+				res = true
+			}
+		}
+		if res {
+			p.reachMemo[f] = 2
+		}
+		return res
+	}
+	if fn != nil {
+		return visit(fn, 0)
+	}
+	if c != nil && c.IsInvoke() {
+		// (the invoked method itself was counted at the call site)
+		for _, m := range p.implementors(c) {
+			if visit(m, 1) {
+				return true
+			}
+		}
+		return false
+	}
+	return false
+}
+
+// implementors: repository methods that an interface invocation may dispatch to
+// (same method name, receiver type implements the interface).
+func (p *Prog) implementors(c *ssa.CallCommon) []*ssa.Function {
+	iface, ok := c.Value.Type().Underlying().(*types.Interface)
+	var out []*ssa.Function
+	for _, m := range p.byMethodName[c.Method.Name()] {
+		if !ok {
+			out = append(out, m)
+			continue
+		}
+		rt := m.Signature.Recv().Type()
+		if types.Implements(rt, iface) || types.Implements(types.NewPointer(rt), iface) {
+			out = append(out, m)
+		}
+	}
+	return out
+}
+
+func sameLabels(a, b map[string]bool) bool {
+	if len(a) != len(b) {
+		return false
+	}
+	for k := range a {
+		if !b[k] {
+			return false
+		}
+	}
+	return true
 }
